@@ -3758,3 +3758,86 @@ func ruleOneShotAgree(w *World, r *Report) {
 		r.ok("ONESHOT-AGREE", key, w.Pos(one.Pos()), "classifies the trimmed schedule, as the crons do")
 	}
 }
+
+// HOOK-BEFORE-STORE (C06, C15): what the add hook refuses is not in storage.
+func ruleHookBeforeStore(prop string) ruleFn {
+	return func(w *World, r *Report) {
+		r.Rule("HOOK-BEFORE-STORE", "in every State implementation's Add, the add hook (which refuses e.g. a rule whose schedule the cron cannot parse) is called, directly or in a callee of the same type, before Storage.Add: no path leads from the storage write to the hook.  Otherwise a fact that the hook refuses is reported as refused and is absent from memory but is in storage: after a reload it is there, and a load that runs the hook fails on it, so the location cannot be opened any more", 2)
+		a := newLocAnchors(w)
+		for n := range a.stateImp {
+			owner := typeKey(n)
+			add := w.TryMethod(typeRel(n), n.Obj().Name(), "Add")
+			if add == nil || stateFactField[owner] == "" {
+				continue
+			}
+			isHook := func(in ssa.Instruction) bool { _, ok := hookCall(owner, "addHook", in); return ok }
+			isStoreAdd := func(in ssa.Instruction) bool {
+				d, ok := isStorageMutation(w, in)
+				return ok && strings.HasSuffix(d, "Add")
+			}
+			hk := map[*ssa.Function]bool{}
+			methods := w.MethodsOf(n)
+			for changed := true; changed; {
+				changed = false
+				for _, fn := range methods {
+					allInstrs(fn, func(in ssa.Instruction) {
+						if hk[fn] {
+							return
+						}
+						if isHook(in) {
+							hk[fn], changed = true, true
+							return
+						}
+						if c := callOf(in); c != nil {
+							if f := c.StaticCallee(); f != nil && f != fn && hk[f] {
+								if o2, ok := stateOwnerOf(a, f); ok && o2 == owner {
+									hk[fn], changed = true, true
+								}
+							}
+						}
+					})
+				}
+			}
+			hookHere := func(in ssa.Instruction) bool {
+				if _, isDefer := in.(*ssa.Defer); isDefer {
+					return false
+				}
+				if isHook(in) {
+					return true
+				}
+				if c := callOf(in); c != nil {
+					if f := c.StaticCallee(); f != nil && f != add && hk[f] {
+						return true
+					}
+				}
+				return false
+			}
+			key := "fn=" + fname(add)
+			var stores, hooks []ssa.Instruction
+			allInstrs(add, func(in ssa.Instruction) {
+				if isStoreAdd(in) {
+					stores = append(stores, in)
+				}
+				if hookHere(in) {
+					hooks = append(hooks, in)
+				}
+			})
+			if len(stores) == 0 || len(hooks) == 0 {
+				r.exempt("HOOK-BEFORE-STORE", key, w.Pos(add.Pos()), "Add does not both write storage and run the add hook: shape not recognised, not decided")
+				continue
+			}
+			bad := false
+			for _, s := range stores {
+				for _, h := range hooks {
+					if reachable(add, s, h) {
+						bad = true
+						r.violation("HOOK-BEFORE-STORE", key, w.PosOf(h), "the add hook runs after Storage.Add ("+w.PosOf(s)+"): a fact the hook refuses is already in storage")
+					}
+				}
+			}
+			if !bad {
+				r.ok("HOOK-BEFORE-STORE", key, w.PosOf(hooks[0]), "the hook has accepted the fact before storage is written")
+			}
+		}
+	}
+}
